@@ -206,6 +206,25 @@ def run(ctx):
                 if isinstance(n_, ast.Assign) and any(isinstance(t_, ast.Name) and t_.id == "start_addrs" for t_ in n_.targets) \
                         and any(isinstance(x, ast.Attribute) and x.attr == "MAX_MEMORY_LEN" for x in ast.walk(n_.value)):
                     clamped = True
+        if clamped:
+            # ... and the clamp is two-sided: over every path of the method the address ends up inside [1, MAX_MEMORY_LEN] (interval
+            # analysis of the whole method with an unconstrained argument; the address is not rebound after the guard)
+            try:
+                ii_ = IntervalInterp(consts, {"_check_channels": chs}, functions=helpers)
+                ii_.operator_names = opnames
+                env_ = ii_.run(mm.node)
+                av_ = env_.get("start_addrs")
+            except Exception:
+                av_ = None
+            MAXM = DOCUMENTED["MAX_MEMORY_LEN"]
+            if av_ is not None and av_.kind != "none" and not av_.within(1, MAXM) and (av_.lo >= 1) == (av_.hi <= MAXM):
+                ctx.unknown("C20.3", mm, mm.node, f"{mname}: start address ends inside [1, MAX_MEMORY_LEN] on every path", f"interval of the clamped address not determined ({av_!r})")
+            elif av_ is not None and av_.kind != "none":
+                inside = av_.within(1, MAXM)                   # else exactly one end is bounded: a one-sided clamp
+                ctx.check("C20.3", inside, mm, mm.node, f"{mname}: start address ends inside [1, MAX_MEMORY_LEN] on every path", "both ends clamped",
+                          f"after the guard `start_addrs` can lie in {av_!r}: the clamp is one-sided - {mname}(..., start_addrs=2**21+5) keeps the address, the room "
+                          "MAX_MEMORY_LEN - start_addrs + 1 is zero or negative, a zero-length block or a block past the memory is sent (':DIG2:PATT:DATA 2097157,12,#212...') and "
+                          "the range written is not the range get_data reads back")
         ctx.check("C20.3", clamped, mm, mm.node, f"{mname}: start address brought into [1, MAX_MEMORY_LEN] before it is used", "clamped like its sibling",
                   f"{mname} uses `start_addrs` as given: set_data([1,0,1], start_addrs=0) emits ':DIG1:PATT:DATA 0,3,...', start_addrs=2**21+3 a fragment past the memory - while get_data clamps "
                   "the same argument to 1..2^21, so the range written is not the range read back")
